@@ -196,7 +196,7 @@ class ExprGen:
     r = self.rng
     k = r.weighted([(5, 'mutUniform'), (3, 'mutSwap'), (3, 'recUniform'), (2, 'recSample'),
                     (3, 'recKPoint'), (2, 'recSegmented')] +
-                   ([(2, 'oo')] if self.oo else []))
+                   ([(7, 'oo')] if self.oo else []))
     if k == 'oo':
       k = r.choice(['recAverage', 'recWeightedAverage', 'recPartiallyMapped', 'recOrder', 'recCycle'])
       if k in ('recPartiallyMapped', 'recOrder', 'recCycle'):
@@ -223,7 +223,7 @@ class ExprGen:
       return self.generator(fit), False
     k = r.weighted([(8, 'seq'), (2, 'concat'), (2, 'union'), (2, 'inter'), (2, 'diff'), (1, 'symdiff'),
                     (1, 'inv'), (2, 'slice'), (2, 'repeat'), (2, 'power'), (2, 'choice'), (2, 'cond'),
-                    (1, 'until'), (3, 'leaf')] + ([(1, 'oo')] if self.oo else []))
+                    (1, 'until'), (3, 'leaf')] + ([(5, 'oo')] if self.oo else []))
     if k == 'leaf':
       return self.expr(0, fit)
     if k == 'oo':
@@ -460,7 +460,7 @@ class C14(Prop):
 
   # -- generation -----------------------------------------------------------------------
   def generate(self, rng, tier):
-    n = 420 if tier == 'quick' else 9000
+    n = 420 if tier == "quick" else 6000
     for i in range(n):
       yield self.gen_case(rng)
     # every modelled primitive alone on a small fixed family
@@ -1077,6 +1077,14 @@ class C14(Prop):
         except Exception:     # pylint: disable=broad-except
           continue
         yield c
+
+  def extra_checks(self, ctx):
+    ctx.coverage['modelled_primitives'] = list(MODEL_PRIMS)
+    ctx.coverage['oracle_only'] = list(ORACLE_ONLY)
+    ctx.coverage['modelled_rather_than_verified'] = (
+        'all primitives and combinators are hand-written Lean functions tied by the recorded-oracle '
+        'correspondence; the oracle_only primitives are exercised on the real code under the property '
+        'oracle only')
 
   def search_cases(self, rng, tier, broken):
     for _ in range(3 if tier == 'quick' else 2):
